@@ -29,14 +29,15 @@ CLASSES = {
     "Topic": {"fields": {"key": "Str"}},
     "TopicType": {"fields": {"g_kind": "Int", "g_of": "Ref:TypeObj"}},      # g_kind: 0 a table entry (ntcore topic class), 1 StructTopic of g_of, 2 StructArrayTopic of g_of
     "TypedTopic": {"fields": {"key": "Str", "ttype": "Ref:TopicType"}},
-    "NTEntry": {"fields": {"key": "Str", "ttype": "Ref:TopicType", "g_value": "Ref:PyObj", "g_exists": "Bool", "g_sets": "Int", "g_setdefaults": "Int"}},
+    "NTEntry": {"fields": {"key": "Str", "ttype": "Ref:TopicType", "g_value": "Ref:PyObj", "g_exists": "Bool", "g_sets": "Int", "g_setdefaults": "Int", "g_type_string": "Str"}},
     "tunable": {"fields": {"_ntdefault": "Ref:PyObj", "_ntsubtable": "Opt[Str]", "_ntwritedefault": "Bool", "?_topic_type": "Bool", "_topic_type": "Ref:TopicType",
                            "?__orig_class__": "Bool", "__orig_class__": "Ref:TypeObj"}},
     "TunOwner": {"fields": {"_tunables": "Map[Ref:tunable,Ref:NTEntry]"}},
     "Method": {"fields": {"?_magic_feedback": "Bool", "_magic_feedback": "Bool", "_magic_feedback_key": "Opt[Str]", "__name__": "Str"}},
     "Signature": {"fields": {"parameters": "Seq[Str]"}},
     "NTTable": {"fields": {"path": "Str"}},
-    "Publisher": {"fields": {"key": "Str", "ttype": "Ref:TopicType"}},
+    "Publisher": {"fields": {"key": "Str", "ttype": "Ref:TopicType", "g_type_string": "Str"}},
+    "RawT": {"fields": {"key": "Str"}}, "_RawTopic": {"fields": {"_topic": "Ref:RawT"}},
     "FbSetterW": {"fields": {"target": "Ref:PyObj", "kind": "Int"},
                   "callable_of": {"methods": {"NTEntry.setValue": 0, "Publisher.set": 1}, "link": "target", "tag": "kind"}},
 }
@@ -128,6 +129,16 @@ CONTRACTS = {
                    "ensures": {"number of distinct elements": "result >= 0 and (result == 0) == (len(xs) == 0) and (result == 1) == (len(xs) > 0 and forall(i, Int, implies(0 <= i and i < len(xs), xs[i] is xs[0])))"},
                    "note": "the expression len(set(args)) (builtin semantics, assumed)"},
     # ---------------------------------------------------------------- repo functions
+    # the bytes adapter added by fix D6: ntcore.RawTopic needs an explicit type string
+    "tt.new_raw": {"kind": "external", "params": {"topic": "Ref:Topic"}, "returns": "Ref:RawT", "returns_fresh": True, "ensures": {"raw view of that topic": "result.key == topic.key"}, "note": "ntcore.RawTopic(topic)"},
+    "RawT.getEntry": {"kind": "external", "params": {"type_string": "Str", "default": "Ref:PyObj"}, "returns": "Ref:NTEntry", "ensures": {"entry of that topic with that type string": "result is not None and result.key == self.key and result.g_type_string == type_string"}, "note": "ntcore.RawTopic.getEntry(typeString, default)"},
+    "RawT.publish": {"kind": "external", "params": {"type_string": "Str"}, "returns": "Ref:Publisher", "ensures": {"publisher of that topic with that type string": "result is not None and result.key == self.key and result.g_type_string == type_string"}, "note": "ntcore.RawTopic.publish(typeString)"},
+    "_RawTopic.__init__": {"receivers": ["_RawTopic"], "ctor": True, "params": {"topic": "Ref:Topic"}, "requires": {"a topic": "topic is not None"}, "modifies": ["self._topic"],
+                           "ensures": {"C09.R0 the bytes adapter wraps the raw view of the same topic": "self._topic is not None and self._topic.key == topic.key"}},
+    "_RawTopic.getEntry": {"receivers": ["_RawTopic"], "params": {"default": "Ref:PyObj"}, "returns": "Ref:NTEntry", "requires": {"constructed": "self._topic is not None"}, "modifies": [],
+                           "ensures": {"C09.R1 a bytes tunable's entry is the topic's entry with the type string 'raw'": "result is not None and result.key == self._topic.key and result.g_type_string == 'raw'"}},
+    "_RawTopic.publish": {"receivers": ["_RawTopic"], "params": {}, "returns": "Ref:Publisher", "requires": {"constructed": "self._topic is not None"}, "modifies": [],
+                          "ensures": {"C09.R2 (also C11) a bytes feedback publishes on the topic with the type string 'raw'": "result is not None and result.key == self._topic.key and result.g_type_string == 'raw'"}},
     "inspect.signature": {"kind": "external", "params": {"f": "Ref:Method"}, "returns": "Ref:Signature", "ensures": {"signature object": "result is not None and len(result.parameters) == nparams(f)"},
                           "note": "inspect.signature(f); only the number of parameters is used"},
     "feedback": {
@@ -255,7 +266,7 @@ CONTRACTS = {
 }
 NAMES = {"dir": ("contract", "tun.dir")}
 DYN_GETATTR = {("setup_tunables", "getattr"): "tun.getattr_cls"}
-CALL_OVERRIDES = {("tunable.__set_name__", "typing.get_type_hints"): "tt.owner_hints", ("_get_topic_type", "typing.get_args"): "tt.get_args"}
+CALL_OVERRIDES = {("_RawTopic.__init__", "ntcore.RawTopic"): "tt.new_raw", ("tunable.__set_name__", "typing.get_type_hints"): "tt.owner_hints", ("_get_topic_type", "typing.get_args"): "tt.get_args"}
 EXPR_OVERRIDES = {("_get_topic_type_for_value", "Sequence[type(value[0])]"): ("tt.seq_hint", ["value"]),
                   ("_get_topic_type", "lambda topic: ntcore.StructTopic(topic, return_annotation)"): ("tt.struct_topic", ["return_annotation"]),
                   ("_get_topic_type", "lambda topic: ntcore.StructArrayTopic(topic, inner_type)"): ("tt.struct_array_topic", ["inner_type"]),
